@@ -223,6 +223,43 @@ func ruleSNoBranch(c *Ctx) {
 					if k, ok := bo.Y.(*ssa.Const); ok && k.Value == nil {
 						allowed++
 						c.OK("S-nobr", "apply/nil-default", pos, "the only test on the debugger: nil selects the no-op debugger")
+						// what is control dependent on that test may only install the no-op hooks
+						if bo.Referrers() != nil {
+							for _, r := range *bo.Referrers() {
+								iff, isIf := r.(*ssa.If)
+								if !isIf {
+									continue
+								}
+								for _, succ := range iff.Block().Succs {
+									if len(succ.Preds) != 1 {
+										continue // the join: reached either way
+									}
+									for _, rb := range fn.Blocks {
+										if !succ.Dominates(rb) {
+											continue
+										}
+										for _, ri := range rb.Instrs {
+											okIns := false
+											switch y := ri.(type) {
+											case *ssa.Alloc:
+												tn := namedOf(y.Type())
+												okIns = tn == "nopDebugger" || tn == "nopStateHandler"
+											case *ssa.MakeInterface, *ssa.FieldAddr, *ssa.Jump, *ssa.DebugRef:
+												okIns = true
+											case *ssa.Store:
+												if fa, isFa := y.Addr.(*ssa.FieldAddr); isFa {
+													f := fieldName(fa.X.Type(), fa.Field)
+													okIns = isHook(y.Val.Type()) && (f == "debugger" || f == "state")
+												}
+											}
+											if !okIns {
+												c.Fail("S-nobr", "apply/nil-default/region", ri.Pos(), "apply does more than install the no-op debugger and state handler depending on whether a debugger is attached: the thread is configured differently with a debugger")
+											}
+										}
+									}
+								}
+							}
+						}
 						continue
 					}
 				}
@@ -508,15 +545,44 @@ func ruleSOrder(c *Ctx) {
 		c.Check(strings.Join(got, ",") == strings.Join(want, ","), "S-order", "who/"+h, token.NoPos, h+" is called only from "+strings.Join(want, ","),
 			fmt.Sprintf("%s is called from %v, lifecycle allows only %v", h, got, want))
 	}
-	// AfterSuccess only on the successful final check
+	// AfterSuccess exactly on the successful *final* check
 	if fn := c.P.Func("bscript/interpreter", "*thread", "CheckErrorCondition"); fn != nil {
-		got, err := projectedPaths(fn, callEvent(setOf("afterSuccess"), false, fn))
+		paths, err := feasiblePaths(fn, 5000)
 		if err != nil {
 			c.Undecided("S-order", "thread.CheckErrorCondition", fn.Pos(), err.Error())
 		} else {
-			ok := !got["afterSuccess; return err"] && got["afterSuccess; return nil"]
-			c.Check(ok, "S-order", "thread.CheckErrorCondition", fn.Pos(), "AfterSuccess fires only on a path that returns nil: "+strings.Join(keysSorted(got), " | "),
-				"AfterSuccess can fire on a failing check or never fires: "+strings.Join(keysSorted(got), " | "))
+			ok := true
+			why := ""
+			n := 0
+			for _, d := range paths {
+				has := false
+				for _, ins := range pathInstrs(d) {
+					if call, isC := ins.(*ssa.Call); isC {
+						if sc := call.Call.StaticCallee(); sc != nil && sc.Name() == "afterSuccess" {
+							has = true
+						}
+					}
+				}
+				final, known := false, false
+				for _, pc := range d.Conds {
+					if pc.Cond.V == ssa.Value(fn.Params[1]) {
+						final, known = pc.Truth, true
+					}
+				}
+				rd := returnDesc(d)
+				if has {
+					n++
+					if rd != "return nil" || !known || !final {
+						ok, why = false, "AfterSuccess fires on a path that is not the successful final check ("+rd+", finalScript tested true: "+fmt.Sprint(known && final)+")"
+					}
+				} else if rd == "return nil" && (!known || final) {
+					ok, why = false, "a successful final check returns without AfterSuccess"
+				}
+			}
+			if n == 0 {
+				ok, why = false, "AfterSuccess is never called"
+			}
+			c.Check(ok, "S-order", "thread.CheckErrorCondition", fn.Pos(), "AfterSuccess fires exactly on the paths that return nil with finalScript true", why)
 		}
 	}
 }
@@ -578,15 +644,37 @@ func ruleSFan(c *Ctx) {
 		rf, calls, argsOK := fieldsRead(fn)
 		// Attach: the field appended to
 		var wf []string
+		appendOK := true
 		for _, b := range at.Blocks {
 			for _, ins := range b.Instrs {
 				if st, ok := ins.(*ssa.Store); ok {
 					if fa, ok := st.Addr.(*ssa.FieldAddr); ok && fa.X == ssa.Value(at.Params[0]) {
-						wf = append(wf, fieldName(fa.X.Type(), fa.Field))
+						f := fieldName(fa.X.Type(), fa.Field)
+						wf = append(wf, f)
+						// the stored value is append(<same field>, fn)
+						call, isCall := st.Val.(*ssa.Call)
+						src := ""
+						if isCall {
+							if bi, isB := call.Call.Value.(*ssa.Builtin); isB && bi.Name() == "append" {
+								if ld, isLd := call.Call.Args[0].(*ssa.UnOp); isLd {
+									if fa2, isFa := ld.X.(*ssa.FieldAddr); isFa && fa2.X == ssa.Value(at.Params[0]) {
+										src = fieldName(fa2.X.Type(), fa2.Field)
+									}
+								}
+								vals := appendedValues(call)
+								if len(vals) != 1 || vals[0] != ssa.Value(at.Params[1]) {
+									appendOK = false
+								}
+							}
+						}
+						if src != f {
+							appendOK = false
+						}
 					}
 				}
 			}
 		}
+		c.Check(appendOK, "S-fan", "Attach"+m+"/appends-to-own-list", at.Pos(), "Attach"+m+" stores append(<its own list>, fn)", "Attach"+m+" does not append the given function to the list it stores: earlier attachments are dropped or another event's handlers are copied in")
 		ok := len(rf) == 1 && len(wf) == 1 && rf[0] == wf[0] && calls == 1 && argsOK
 		c.Check(ok, "S-fan", m, fn.Pos(), fmt.Sprintf("%s runs the functions of %v, Attach%s appends to %v, arguments passed through unchanged", m, rf, m, wf),
 			fmt.Sprintf("%s runs the functions of %v but Attach%s appends to %v (calls=%d, arguments passed through=%v): attached functions fire on a different event or not at all", m, rf, m, wf, calls, argsOK))
